@@ -358,9 +358,12 @@ def generate(tier, rng):
         stack = rng.choice(stacks[kind])
         # error responses under their own HTTP status are rendered (with their codes) by the pydantic extractor only
         status_map = rng.choice([None, None, {'2001': 418, '-32601': 404}]) if (kind == 'openapi' and stack[0] == 'pydantic') else None
-        yield make_case(kind, methods, heap, stack, version=rng.choice(['3.1.0', '3.1.0', '3.0.3']),
-                        path=rng.choice(['/api/v1', '/', '/rpc/']), generations=rng.randrange(1, 4),
-                        default_prefix=rng.choice(['', '', 'D']) if kind == 'openapi' else '', status_map=status_map)
+        cs = make_case(kind, methods, heap, stack, version=rng.choice(['3.1.0', '3.1.0', '3.0.3']),
+                       path=rng.choice(['/api/v1', '/', '/rpc/']), generations=rng.randrange(1, 4),
+                       default_prefix=rng.choice(['', '', 'D']) if kind == 'openapi' else '', status_map=status_map)
+        if rng.random() < 0.35:
+            cs['pregen'] = True
+        yield cs
     # the canonical D13 / D14 / D15 / D22 probes
     yield make_case('openapi', [{'template': 'scalar', 'endpoint': '', 'name': 'a', 'ann': {'cell': 0}},
                                 {'template': 'container', 'endpoint': '', 'name': 'b', 'ann': {'cell': 0}}], [['2002']], ['docstring', 'pydantic'], generations=3)
@@ -384,6 +387,13 @@ def run_impl(c):
     b = Built(c)
     before = b.snapshot()
     try:
+        if c.get('pregen'):
+            # the same spec object has served another registry / component prefix before: nothing of it may show up now
+            other = {'/zz': [pjrpc.server.Method(fresh('nested'), 'zz_other', None), pjrpc.server.Method(fresh('model'), 'zz_model', None)]}
+            if c['kind'] == 'openrpc':
+                b.spec.schema(path='/zz', methods_map=other)
+            else:
+                b.spec.schema(path='/zz', methods_map=other, component_name_prefix='Zz')
         for g in range(int(c['generations'])):
             doc = b.generate(c)
             out['docs'].append(abstract(c, doc))
@@ -540,6 +550,16 @@ def oracle(prop, c, out):
         if got != sorted(want_keys):
             fail('not-complete', f'generation {g}: entries {got} do not describe every registered method exactly once', d['entries'], sorted(want_keys))
             return f
+        # no leak from another generation / registry: every component belongs to one of the registered methods
+        if all('raised' not in a for a in out['alone']):
+            allowed = set()
+            for a in out['alone']:
+                allowed |= set(a['components'])
+            extra = sorted(set(d['components']) - allowed)
+            if extra:
+                fail('foreign-components', f'generation {g}: components {extra[:4]} belong to none of the registered methods '
+                                           f'(left over from another generation of the same spec object?)', d['components'], sorted(allowed))
+                return f
         # no leak: the entry of a method is the entry it gets when generated alone
         for m, k, a in zip(c['methods'], want_keys, out['alone']):
             if 'raised' in a or not a['entries']:
